@@ -9,7 +9,7 @@ from vf.spec import cdb as S
 ID = "C02"
 LEVEL = "exploration"
 TECHNIQUE = "deviation-bounded exhaustive enumeration of joint field assignments and of library-built CDBs; marshall_cdb/unmarshall_cdb compared with an independent spec codec in both directions"
-RULE = ("per class: (a) joint assignments to all CDB fields at once (service action included; the operation code over all codes of the class's CDB-length group), every assignment deviating "
+RULE = ("field dictionaries also as a read-only mappingproxy and as a row object whose iteration yields values (baseline and single deviations); an opcode scan in one process (a CDB marshalled for each of the 256 operation code values, 4 orders; ten classes built, decoded and re-encoded before and after every 32 values: unchanged); per class: (a) joint assignments to all CDB fields at once (service action included; the operation code over all codes of the class's CDB-length group), every assignment deviating "
         "from the all-zero and from the all-ones baseline in at most k fields (k=2 quick, 3 thorough), each deviating field over its whole "
         "alphabet; the spec encoder turns the assignment into bytes, then unmarshall_cdb(bytes) must equal the assignment, "
         "marshall_cdb(assignment) and marshall_cdb(unmarshall_cdb(bytes)) must equal the bytes, and relative to the baseline only the "
@@ -40,7 +40,7 @@ N_FIRST = 13
 
 
 def partitions(tier):
-    return [[n] for n in S.CLASSES] + [["first-use", i] for i in range(N_FIRST)]
+    return [[n] for n in S.CLASSES] + [["first-use", i] for i in range(N_FIRST)] + [["scan", o] for o in ("up", "down", "groups", "interleaved")]
 
 
 def first_action(i):
@@ -118,6 +118,26 @@ def fresh_instance(name):
     raise RuntimeError("no table offers " + name)
 
 
+class Record(object):
+    """a row object as database drivers hand out (sqlite3.Row behaves like this): keys() names the columns, row[name] the value,
+    iterating the row yields the VALUES"""
+
+    def __init__(self, d):
+        self._d = dict(d)
+
+    def keys(self):
+        return list(self._d)
+
+    def __getitem__(self, k):
+        return self._d[k]
+
+    def __len__(self):
+        return len(self._d)
+
+    def __iter__(self):
+        return iter(self._d.values())
+
+
 def check_assignment(name, cls, vals, basevals=None, dev=()):
     out = []
     b = spec_bytes(name, vals)
@@ -158,6 +178,17 @@ def check_assignment(name, cls, vals, basevals=None, dev=()):
             out.append(("encode_foreign_key/%s" % name, "%s.marshall_cdb with a key that is no field at position %d of %r = %s, expected %s"
                         % (name, pos, keys, m4.hex() if isinstance(m4, bytes) else m4, b.hex())))
             break
+    if len(dev) <= 1:
+        # the field values held in other mapping types: a read-only proxy, a row object whose iteration yields values
+        import types
+        for how, obj in (("a mappingproxy", types.MappingProxyType(dict(vals))), ("a row object (keys() / row[name], iteration yields values)", Record(vals))):
+            try:
+                m5 = bytes(cls.marshall_cdb(obj))
+            except Exception as e:   # noqa: BLE001
+                m5 = "raised %s: %s" % (type(e).__name__, e)
+            if m5 != b:
+                out.append(("encode_mapping_type/%s" % name, "%s.marshall_cdb of %r held in %s = %s, expected %s"
+                            % (name, vals, how, m5.hex() if isinstance(m5, bytes) else m5, b.hex())))
     m2 = bytes(cls.marshall_cdb(d))
     if m2 != b:
         out.append(("reencode/%s" % name, "%s.marshall_cdb(unmarshall_cdb(%s)) = %s" % (name, b.hex(), m2.hex())))
@@ -328,6 +359,9 @@ def run_case(case):
         return check_built_wide(case[1], cls, op)
     if case[0] == "first-use":
         return [x for (_, _, v) in run_first_use(case[1]) for x in v]
+    if case[0] == "scan":
+        from vf.props import c09
+        return c09.run_scan(case[1])
     name, mode = case[0], case[1]
     cls, inst, op = fresh_instance(name)
     if mode == "assign":
@@ -387,6 +421,17 @@ def replay(case):
 def run_partition(part, tier, seed):
     acc = Acc(seed)
     name = part[0]
+    if name == "scan":
+        # many distinct operation codes through the codec in ONE process (an opcode scanner): build / decode / re-encode of ten classes
+        # observed before and after every 32 of the 256 values (shared with C09)
+        from vf.props import c09
+        case = ["scan", part[1]]
+        acc.case(case, nontrivial=True, key=tuple(case))
+        v = c09.run_scan(part[1])
+        for k, what in v:
+            acc.violation(k, what, case)
+        acc.outcome((tuple(case), tuple(k for k, _ in v)))
+        return acc
     if name == "first-use":
         case = ["first-use", part[1]]
         for (n_, bk, v) in run_first_use(part[1]):
